@@ -212,6 +212,12 @@ pub fn match_bed_and_breakfast(
 
         let days_diff = (tx.date - sell_tx.date).num_days();
 
+        // A split on the sale date takes effect after that day's trades, i.e. between
+        // the sale and any later purchase (it is listed after the day's trades).
+        if days_diff == 0 {
+            apply_split_ratio_effect(&mut cumulative_ratio_effect, tx);
+        }
+
         // Must be after sell date
         if days_diff <= 0 {
             continue;
